@@ -1,7 +1,7 @@
 #!/bin/bash
 # confirm4.sh <prop> <x>: confirm a round-4 seed in its worktree /tmp/seed4_<prop>:
 #  baseline suite green WITH the change, demo fails WITH, demo passes WITHOUT.  Prints one verdict line.
-P=$1; X=$2; W=/tmp/seed4_$P; S=$W/SEED_$X
+P=$1; X=$2; W=/tmp/${SEEDPFX:-seed4}_$P; S=$W/SEED_$X
 cd $W || exit 2
 export CARGO_NET_OFFLINE=true
 git checkout -q -- . 2>/dev/null
